@@ -608,6 +608,19 @@ class XmlDocument(SubXmlBase):
 
         self.event_manager.fire_event('after_deserialize', ctx)
 
+    @staticmethod
+    def _bare_response(cls, inst):
+        """The response of a method that is not wrapped and returns nothing is
+        an empty message class. The published schema declares its element
+        without ``nillable``, so ``None`` is written as the empty element it
+        stands for, not as ``xsi:nil``."""
+
+        if inst is None and issubclass(cls, ComplexModelBase) \
+                                                and len(cls._type_info) == 0:
+            return cls()
+
+        return inst
+
     def serialize(self, ctx, message):
         """Uses ``ctx.out_object``, ``ctx.out_header`` or ``ctx.out_error`` to
         set ``ctx.out_body_doc``, ``ctx.out_header_doc`` and
@@ -648,7 +661,8 @@ class XmlDocument(SubXmlBase):
                 # ctx.out_object is always a sequence: when the response is
                 # not wrapped its only element is the response itself, named
                 # after the method like Soap11 does.
-                result_inst = ctx.out_object[0]
+                result_inst = self._bare_response(result_message_class,
+                                                             ctx.out_object[0])
 
                 sub_ns = result_message_class.Attributes.sub_ns
                 if sub_ns is None:
